@@ -44,7 +44,8 @@ type Controller struct {
 	// crash-after of that step fires) — the "concurrent reader".
 	Observe func(Event)
 
-	n       int // steps performed or attempted since Begin
+	prefix  string // Root + "/"
+	n       int    // steps performed or attempted since Begin
 	total   int64
 	armed   bool
 	at      int
@@ -104,6 +105,7 @@ var (
 
 // Register makes c responsible for every path below c.Root.
 func Register(c *Controller) {
+	c.prefix = c.Root + "/"
 	mu.Lock()
 	reg = append(reg, c)
 	mu.Unlock()
@@ -127,7 +129,7 @@ func For(path string) *Controller {
 	mu.RLock()
 	defer mu.RUnlock()
 	for _, c := range reg {
-		if strings.HasPrefix(path, c.Root+"/") || path == c.Root {
+		if strings.HasPrefix(path, c.prefix) || path == c.Root {
 			return c
 		}
 	}
